@@ -122,7 +122,10 @@ class Adj:
         self.delim = set(delim)
         self.vocab = set(vocab or [])
         self.memo = {}
-        self.inprog = {}
+        self.trees = {}
+        self.cur = {}
+        self.atomic = set()
+        self.recording = True
         self.violations = []     # (kind, fn qual, where, message)
         self.notes = []
         self.analysed = []
@@ -164,6 +167,8 @@ class Adj:
         fmt = n.get("fmt")
         out = []
         if fmt is None:
+            if newline and len([a for a in n.get("args", []) if a.strip()]) <= 1:
+                return [("lit", "\n", "%s:%d" % (rel, n["line"]))]      # writeln!(out)
             return [("any", "write! without a literal format at %s:%d" % (rel, n["line"]))]
         types = self.join.display_types(rel, n["line"], n["col"])
         parts = re.split(r"(\{[^{}]*\})", fmt.replace("{{", "\x01").replace("}}", "\x02"))
@@ -286,7 +291,7 @@ class Adj:
                     cur = s
                     where_last = w if (s.last) else where_last
                     continue
-                if "R" in cur.last and "R" in s.first:
+                if "R" in cur.last and "R" in s.first and self.recording:
                     self.violations.append(("adjacent", ctxname, "%s -> %s" % (where_last, w),
                                             "a piece that may end in a regular byte (%s) is directly followed by a piece that may begin with one (%s): "
                                             "the two tokens fuse when read back" % (where_last, w)))
@@ -306,7 +311,7 @@ class Adj:
             s = self.eval(tree[1], ctxname)
             if s is None:
                 return EMPTY
-            if "R" in s.last and "R" in s.first:
+            if "R" in s.last and "R" in s.first and self.recording:
                 self.violations.append(("adjacent", ctxname, self._where(tree[1]),
                                         "consecutive iterations emit a regular byte directly after a regular byte (no separator between repetitions)"))
             return Sum(s.first, s.last, True)
@@ -320,7 +325,8 @@ class Adj:
         if k == "callee":
             ids = tree[1]
             if not ids:
-                self.notes.append("unresolved writer call %s at %s" % (tree[2], tree[3]))
+                if self.recording:
+                    self.notes.append("unresolved writer call %s at %s" % (tree[2], tree[3]))
                 return Sum(ANY, ANY, True)
             subs = [self.summary(i) for i in ids]
             subs = [s for s in subs if s is not None]
@@ -359,7 +365,7 @@ class Adj:
             if self.cls(ch) == "R":
                 run += ch
             else:
-                if run and not self._word_ok(run):
+                if run and not self._word_ok(run) and self.recording:
                     self.violations.append(("vocabulary", ctxname, where,
                                             "the literal %r contains the regular-character run %r, which is not a token the reader knows" % (text, run)))
                 run = ""
@@ -371,38 +377,75 @@ class Adj:
             return True
         return False
 
-    def summary(self, body_id):
-        if body_id in self.memo:
-            return self.memo[body_id]
-        if body_id in self.inprog:
-            return self.inprog[body_id]
+    # ---- global fixpoint over all writers reachable from the roots ------------------------
+    def _collect(self, body_id):
+        if body_id in self.trees:
+            return
         b = self.f.body(body_id)
         if b is None:
-            return Sum(ANY, ANY, True)
+            self.trees[body_id] = None
+            return
         fn = self.ast.fn_for_body(b)
         if fn is None:
             self.notes.append("no syntax tree for %s" % body_id)
-            return Sum(ANY, ANY, True)
-        sinks = self.sink_names(fn)
-        tree = self.tree_of(fn, sinks)
-        # fixpoint for recursive writers (Primitive::serialize <-> serialize_list <-> Dictionary::serialize)
-        self.inprog[body_id] = Sum((), (), False)
-        prev = None
-        for _ in range(6):
-            nviol = len(self.violations)
-            s = self.eval(tree, body_id)
-            if s is None:
-                s = EMPTY
-            if prev is not None and s.key() == prev.key():
+            self.trees[body_id] = None
+            return
+        tree = self.tree_of(fn, self.sink_names(fn))
+        self.trees[body_id] = tree
+        for cid in self._callees(tree):
+            self._collect(cid)
+
+    def _callees(self, tree):
+        out = []
+        if not isinstance(tree, tuple):
+            return out
+        if tree[0] == "callee":
+            out += list(tree[1])
+        elif tree[0] in ("seq", "alt"):
+            for x in tree[1]:
+                out += self._callees(x)
+        elif tree[0] == "loop":
+            out += self._callees(tree[1])
+        return out
+
+    def solve(self, roots):
+        for r in roots:
+            self._collect(r)
+        ids = [i for i, t in self.trees.items() if t is not None]
+        for i in ids:
+            self.cur.setdefault(i, Sum((), (), False))
+        self.recording = False
+        for _ in range(12):
+            changed = False
+            for i in ids:
+                s = self.eval(self.trees[i], i) or EMPTY
+                if s.key() != self.cur[i].key():
+                    # monotone join with the previous value
+                    s = Sum(s.first | self.cur[i].first, s.last | self.cur[i].last, s.nullable or self.cur[i].nullable)
+                    if s.key() != self.cur[i].key():
+                        self.cur[i] = s
+                        changed = True
+            if not changed:
                 break
-            # drop violations of non-final rounds
-            del self.violations[nviol:]
-            prev = s
-            self.inprog[body_id] = s
-        del self.inprog[body_id]
-        self.memo[body_id] = s
-        self.analysed.append((body_id, repr(s)))
-        return s
+        self.violations = []
+        self.analysed = []
+        for i in ids:
+            # writers of ONE token (string, name) emit regular bytes next to each other by design:
+            # their inside is governed by the escape rules, only their summary takes part here
+            self.recording = i not in self.atomic
+            s = self.eval(self.trees[i], i) or EMPTY
+            self.memo[i] = self.cur[i]
+            self.analysed.append((i, repr(self.cur[i])))
+        self.recording = False
+
+    def summary(self, body_id):
+        if body_id in self.cur:
+            return self.cur[body_id]
+        if body_id not in self.trees:
+            # called outside solve(): solve for this root
+            self.solve([body_id])
+            return self.cur.get(body_id, Sum(ANY, ANY, True))
+        return Sum(ANY, ANY, True)
 
     @staticmethod
     def sink_names(fn):
@@ -466,11 +509,9 @@ def rule_framing(ctx, f, prop):
     saves = [b for b in f.bodies.values() if b["id"].endswith("::save") and (b.get("impl") or {}).get("self", "").startswith("file::Storage<")]
     if not ctx.floor(rid, len(saves), 1, "Storage::save"):
         return
-    n0 = len(a.violations)
-    for b in saves:
-        s = a.summary(b["id"])
-        ctx.count("writers summarised", len(a.memo))
-    vs = a.violations[n0:] if n0 else a.violations
+    a.atomic = {"primitive::serialize_name", "primitive::PdfString::serialize"}
+    a.solve([b["id"] for b in saves])
+    ctx.count("writers summarised", len(a.memo))
     seen = set()
     for kind, fn, where, msg in a.violations:
         key = "%s#%s:%s" % (fn, kind, re.sub(r":\d+", "", where))
